@@ -8,7 +8,8 @@ before INSERT/UPDATE/DELETE when no transaction is open, *before* the parameters
 only and leaves the transaction open; a crash (or `close()`) drops what is uncommitted.
 
 Every public method is a small program (`Prog`) over `execute()` / `commit()` calls, mirroring
-the Python statement by statement, so that a crash can be placed before/after every call.
+the Python statement by statement, so that a crash can be placed before/after every call
+(`rollback()` counts as a call too).
 
 Also modelled (CPython detail that decides the *kind* of exception when binding overflows):
 `bind_parameters` reports a failed binding through `sqlite3_errcode(db)`; when the first
@@ -132,17 +133,22 @@ def Conn.exec (c : Conn) (s : Stmt) : Conn × SRes :=
 def Conn.commit (c : Conn) : Conn :=
   if c.inTx then { c with committed := c.working, inTx := false, stale := false } else c
 
+/-- `conn.rollback()` -/
+def Conn.rollback (c : Conn) : Conn :=
+  if c.inTx then { c with working := c.committed, inTx := false, stale := false } else c
+
 /-- process death, or `cursor.close(); conn.close()`: only the file remains -/
 def Conn.crash (c : Conn) : Conn := { committed := c.committed, working := c.committed }
 
 /-- a new connection on a file -/
 def connect (file : Journal) : Conn := { committed := file, working := file }
 
-/-- a method body: `execute()` and `commit()` calls with Python control flow in between -/
+/-- a method body: `execute()`, `commit()` and `rollback()` calls with Python control flow in between -/
 inductive Prog (α : Type) where
   | ret (a : α)
   | exec (s : Stmt) (k : SRes → Prog α)
   | commit (k : Prog α)
+  | rollback (k : Prog α)
 
 /-- run at most `fuel` calls; `none` = the process died before the method returned -/
 def Prog.run : Prog α → Nat → Conn → Conn × Nat × Option α
@@ -151,18 +157,22 @@ def Prog.run : Prog α → Nat → Conn → Conn × Nat × Option α
   | .exec s k, n + 1, c => (k (c.exec s).2).run n (c.exec s).1
   | .commit _, 0, c => (c, 0, none)
   | .commit k, n + 1, c => k.run n c.commit
+  | .rollback _, 0, c => (c, 0, none)
+  | .rollback k, n + 1, c => k.run n c.rollback
 
 /-- number of `execute()`/`commit()` calls of a method from a given connection state -/
 def Prog.steps : Prog α → Conn → Nat
   | .ret _, _ => 0
   | .exec s k, c => (k (c.exec s).2).steps (c.exec s).1 + 1
   | .commit k, c => k.steps c.commit + 1
+  | .rollback k, c => k.steps c.rollback + 1
 
 /-- run to completion -/
 def Prog.full : Prog α → Conn → Conn × α
   | .ret a, c => (c, a)
   | .exec s k, c => (k (c.exec s).2).full (c.exec s).1
   | .commit k, c => k.full c.commit
+  | .rollback k, c => k.full c.rollback
 
 /-! ## the methods as programs -/
 
@@ -214,15 +224,17 @@ def setSeqNumP (h : Handle) (out inn : Option Int) : Prog Res :=
   else if inn.any (· ≤ 0) then .ret (.set { h with nextOut := effOut h out } (some .assertion))
   else
     let h2 : Handle := { h with nextOut := effOut h out, nextIn := effIn h inn }
+    -- `except Exception: self.conn.rollback(); raise`
+    let fail : SRes → Prog Res := fun r => .rollback (.ret (.set h2 (some (excOf r))))
     .exec (.updateBoth (effIn h inn - 1) (effOut h out - 1) h.key) fun
       | .done =>
         .exec (.deleteFrom h.key (effIn h inn) .inbound) fun
           | .done =>
             .exec (.deleteFrom h.key (effOut h out) .outbound) fun
               | .done => .commit (.ret (.set h2 none))
-              | r => .ret (.set h2 (some (excOf r)))
-          | r => .ret (.set h2 (some (excOf r)))
-      | r => .ret (.set h2 (some (excOf r)))
+              | r => fail r
+          | r => fail r
+      | r => fail r
 
 def recoverRes : SRes → Res
   | .msgs ms => .msgs ms
